@@ -91,7 +91,7 @@ def enabled_findings():
                          'known_findings.json')
         _FINDINGS = set()
         if os.path.exists(p) and os.environ.get('VERIF_IGNORE_KNOWN') != '1':
-            _FINDINGS = {f['id'] for f in json.load(open(p)).get('findings', [])}
+            _FINDINGS = {f['id'] for f in json.load(open(p, encoding='utf-8')).get('findings', [])}
     return _FINDINGS
 
 
